@@ -20,7 +20,7 @@ ROUTES = ["scalar.CreateCopy.category", "array.CreateCopy.category", "fixedarray
           "db.Convert.int", "db.Convert.list", "db.Convert.tuple", "db.Convert.numpy", "array.GetValues.list", "array.GetValues.tuple",
           "array.GetValues.numpy", "array.GetValues.tuples", "array.CreateCopy", "fixedarray.IndexAsScalar", "fixedarray.ChangingIndex",
           "manager.ConvertToCurrent", "manager.ConvertScalarToCurrent", "category-default", "own-unit.simple", "own-unit.derived",
-          "db.Convert.exp"]
+          "db.Convert.exp", "db.Convert.exp1"]
 BOUNDS = {
     "quick": "values: all reals; %d routes; container lengths 0..3; unit pairs: a kind-covering set (scale, affine, identity, legacy spelling, "
              "category != quantity type, unknown) for every route, plus every unit <-> base of 40 seeded quantity types for the scalar routes; "
@@ -47,10 +47,19 @@ def items(tier, seed):
     out = []
     for qt, cat, u, v in COVER:
         for r in ROUTES:
-            if r in ("own-unit.derived", "db.Convert.exp"):
+            if r in ("own-unit.derived", "db.Convert.exp", "db.Convert.exp1"):
                 continue
             for n in ([2] if not r.split(".")[-1] in ("list", "tuple", "numpy", "tuples") and "array" not in r else [1, 2, 3] if r.endswith("tuples") else [0, 1, 3]):
                 out.append({"r": r, "qt": qt, "cat": cat, "u": u, "v": v, "n": n})
+    # the simple filler's expression-string units through every container route
+    for qt, u, v in (("length", "m", "km"), ("length", "mm", "cm"), ("time", "h", "s"), ("time", "min", "d")):
+        for r in ("db.Convert.float", "db.Convert.list", "db.Convert.tuple", "db.Convert.numpy", "array.GetValues.list", "array.GetValues.tuple", "array.GetValues.numpy",
+                  "array.GetValues.tuples", "array.CreateCopy", "scalar.GetValue", "quantity.Convert", "fixedarray.IndexAsScalar"):
+            out.append({"r": r, "qt": qt, "cat": qt, "u": u, "v": v, "n": 2, "dbk": "simple"})
+    # units spelled as one (unit, 1) pair: the same conversion as the plain spelling, offsets and negative amounts included, every value kind
+    for qt, cat, u, v in COVER:
+        for vk in ("float", "list", "tuple", "numpy"):
+            out.append({"r": "db.Convert.exp1", "qt": qt, "cat": cat, "u": u, "v": v, "n": 2, "vk": vk})
     for qt, u, v in EXP_PAIRS:
         for e in (2, 3, -1, -2):
             out.append({"r": "db.Convert.exp", "qt": qt, "cat": qt, "u": u, "v": v, "e": e, "n": 1})
@@ -77,11 +86,11 @@ def items(tier, seed):
             us = db.GetUnits(qt)
             allp += [(qt, u, v) for u in us for v in us if u != v]
         for qt, u, v in seeded_sample(allp, 12000, seed):
-            r = rng.choice([x for x in ROUTES if x not in SCALAR_ROUTES and x not in ("own-unit.derived", "db.Convert.exp", "category-default")])
+            r = rng.choice([x for x in ROUTES if x not in SCALAR_ROUTES and x not in ("own-unit.derived", "db.Convert.exp", "db.Convert.exp1", "category-default")])
             out.append({"r": r, "qt": qt, "cat": qt, "u": u, "v": v, "n": rng.choice([1, 2, 3])})
     out[0]["canary"] = True
     for i, c in enumerate(out):
-        if i % 2 == 0 and c["r"] not in ("category-default", "own-unit.derived"):
+        if i % 2 == 0 and c["r"] not in ("category-default", "own-unit.derived") and not c.get("dbk"):
             c["prelude"] = True
     rng.shuffle(out)
     return out
@@ -115,6 +124,9 @@ def run(cfg, V):
     from barril.units.unit_system_manager import UnitSystemManager
 
     r, qt, cat, u, v = cfg["r"], cfg["qt"], cfg["cat"], cfg["u"], cfg["v"]
+    if cfg.get("dbk") and not cfg.get("_pushed"):
+        with pushed(get_db(cfg["dbk"])):
+            return run(dict(cfg, _pushed=True), V)
     db = UnitDatabase.GetSingleton()
     x = V["x0"]
     if cfg.get("prelude") and u and v:
@@ -255,6 +267,13 @@ def run(cfg, V):
         e = cfg["e"]
         res = db.Convert(qt, [(u, e)], [(v, e)], x)
         return {"vals": [res]}
+    if r == "db.Convert.exp1":
+        xs = _xs(cfg, V)
+        vk = cfg["vk"]
+        val = x if vk == "float" else list(xs) if vk == "list" else tuple(xs) if vk == "tuple" else SymArray(xs) if any(hasattr(e, "expr") for e in xs) else __import__("numpy").array(xs, dtype=float)
+        res = db.Convert(cat, [(u, 1)], [(v, 1)], val)
+        res2 = db.Convert(cat, ((u, 1),), ((v, 1),), val)
+        return {"vals": [res] if vk == "float" else list(res), "vals2": [res2] if vk == "float" else list(res2)}
     raise KeyError(r)
 
 
@@ -266,8 +285,13 @@ def props(cfg, T, obs):
         if r == "own-unit.derived" and obs.isa(ZeroDivisionError):
             return []
         return [("conversion inside one quantity type does not raise", False)]
-    db = get_db("default")
+    db = get_db(cfg.get("dbk", "default"))
     P = []
+    if r == "db.Convert.exp1":
+        ins = [T["x%d" % i] for i in range(len(obs["vals"]))]
+        return [("units spelled [(u, 1)] / ((u, 1),) convert exactly like the plain spelling, element by element",
+                 z3.And(z3.BoolVal(len(obs["vals"]) == len(obs["vals2"]) == (1 if cfg["vk"] == "float" else cfg["n"])),
+                        *[approx(o, oracle_convert(db, qt, u, v, i)) for o, i in zip(obs["vals"], ins)], *[approx(o, oracle_convert(db, qt, u, v, i)) for o, i in zip(obs["vals2"], ins)]))]
     if r == "fixedarray.ChangingIndex.neg":
         v1, u1, v2, u2 = obs["neg"]
         want1 = [oracle_convert(db, qt, u, v, T["x0"]), oracle_convert(db, qt, u, v, T["x1"]), T["d"]]
